@@ -49,6 +49,9 @@ type h2Resp struct {
 	Early    int           `json:"informational_responses_first,omitempty"` // number of 103 Early Hints sent before the final response
 	// BodyPause: the upstream sends its head at once and then the body in len(Chunks) pieces, pausing this long before each
 	BodyPause time.Duration `json:"pause_before_each_body_piece,omitempty"`
+	// Tunnel: bytes the upstream sends right after a 101 response (see h2Req.Tunnel)
+	Tunnel    []byte `json:"-"`
+	TunnelLen int    `json:"bytes_after_101,omitempty"`
 }
 
 type h2Req struct {
@@ -76,6 +79,11 @@ type h2Req struct {
 	SplitCookie bool `json:"cookie_crumbs_as_separate_fields,omitempty"`
 	EndEmpty    bool `json:"end_stream_on_empty_data_frame,omitempty"`
 	SplitHead   int  `json:"continuation_after_block_bytes,omitempty"`
+	// Tunnel: bytes the client sends once it has read a 101 response; it then reads the len(Resp.Tunnel) bytes of the
+	// upstream and closes the connection. The upstream records what it receives until the stream ends (h2Seen.Tunnel).
+	// Only when one of the two is non-empty; otherwise a 101 is an ordinary last response of the connection.
+	Tunnel    []byte `json:"-"`
+	TunnelLen int    `json:"bytes_after_101,omitempty"`
 }
 
 type h2Client struct {
@@ -101,6 +109,8 @@ type h2Seen struct {
 	CL         int64
 	At         time.Time
 	Remote     string
+	Tunnel     []byte // bytes received after the upstream's 101 response (guarded by h2Env.mu while the tunnel is open)
+	TunnelEnd  bool   // the stream from fabio ended
 }
 
 // h2Result is what a client observed.
@@ -118,6 +128,9 @@ type h2Result struct {
 	CL       int64
 	Interim  []int
 	Trailer  http.Header
+	// after a 101 response: the bytes read from the tunnel (see h2Req.Tunnel)
+	Tunnel    []byte
+	TunnelErr error
 }
 
 type h2Env struct {
@@ -144,6 +157,7 @@ type h2Env struct {
 	onSeen   func(*h2Seen)
 	stop     chan struct{}
 	h2conn   map[string]*h2cConn // request id -> HTTP/2 client connection
+	tunnels  int                 // upstream ends of tunnels (after a 101) that have not seen the end of their stream
 }
 
 func h2NewEnv(r *simcore.Run, cfg *config.Config, table string) *h2Env {
@@ -345,10 +359,66 @@ func (e *h2Env) serveUpstream(key string, rawConn, c net.Conn) {
 		} else if err := h2WriteChunks(c, raw, rs.Chunks); err != nil {
 			return
 		}
+		if rs.Status == 101 && (len(rs.Tunnel) > 0 || len(sc.Tunnel) > 0) {
+			e.upstreamTunnel(key, id, c, br, s, &rs)
+			return
+		}
 		if rs.CloseAft {
 			return
 		}
 	}
+}
+
+// upstreamTunnel is the upstream's side of the connection after its 101 response: it sends its scripted bytes and
+// records what arrives until the stream ends.
+func (e *h2Env) upstreamTunnel(key, id string, c net.Conn, br *bufio.Reader, s *h2Seen, rs *h2Resp) {
+	e.mu.Lock()
+	e.tunnels++
+	e.mu.Unlock()
+	defer func() {
+		e.mu.Lock()
+		e.tunnels--
+		e.mu.Unlock()
+	}()
+	if err := h2WriteChunks(c, rs.Tunnel, rs.Chunks); err != nil {
+		return
+	}
+	buf := make([]byte, 4096)
+	for {
+		n, err := br.Read(buf)
+		e.mu.Lock()
+		s.Tunnel = append(s.Tunnel, buf[:n]...)
+		s.TunnelEnd = err == io.EOF
+		total := len(s.Tunnel)
+		e.mu.Unlock()
+		if err != nil {
+			e.r.Tracef("upstream %s tunnel id=%s ended after %d bytes (end of stream: %v)", key, id, total, err == io.EOF)
+			return
+		}
+	}
+}
+
+// tunnelsOpen reports how many upstream ends of tunnels have not seen the end of their stream yet.
+func (e *h2Env) tunnelsOpen() int {
+	e.mu.Lock()
+	defer e.mu.Unlock()
+	return e.tunnels
+}
+
+// clientTunnel is the client's side after it has read a 101 response: it sends its scripted bytes, reads as many
+// bytes as the upstream's script sends (giving up after a minute of simulated time) and leaves.
+func (e *h2Env) clientTunnel(cl *h2Client, rq *h2Req, res *h2Result, c net.Conn, br *bufio.Reader) {
+	if err := h2WriteChunks(c, rq.Tunnel, rq.Chunks); err != nil {
+		res.TunnelErr = err
+		return
+	}
+	dl := time.Now().Add(time.Minute)
+	e.d.Hint(dl)
+	c.SetReadDeadline(dl)
+	buf := make([]byte, len(rq.Resp.Tunnel))
+	n, err := io.ReadFull(br, buf)
+	res.Tunnel, res.TunnelErr = buf[:n], err
+	e.r.Tracef("client %s tunnel id=%s got %d of %d bytes err=%v", cl.Addr, rq.ID, n, len(buf), err)
 }
 
 func h2WriteChunks(c net.Conn, raw []byte, chunks []int) error {
@@ -554,6 +624,11 @@ func (e *h2Env) client(cl *h2Client) {
 			res.Body, res.BodyErr = io.ReadAll(resp.Body)
 			res.DoneAt = time.Now()
 			e.r.Tracef("client %s got %d id=%s body=%d err=%v", cl.Addr, res.Status, rq.ID, len(res.Body), res.BodyErr)
+			if res.Status == 101 && (len(rq.Tunnel) > 0 || len(rq.Resp.Tunnel) > 0) {
+				e.clientTunnel(cl, rq, res, c, br)
+				closeConn(to)
+				continue
+			}
 			if resp.Close || res.BodyErr != nil || rq.CloseAfter {
 				closeConn(to)
 			}
